@@ -1402,7 +1402,17 @@ func c10Run(t *testing.T, out *vfOut, h c10History) {
 			tbl = append(tbl, enc.ip(l.IP), fmt.Sprint(l.Mac), enc.host(l.Host), fmt.Sprint(l.Kind))
 		}
 		hbi, ibh := w.probeLists(enc, probeIPs, probeHosts)
-		obsStr := c10Flat(tbl) + " " + hbi + " " + ibh
+		// GetLeases(LeasesAll) as a set of addresses, FindMACbyIP over the subnet.
+		var act, mbi []string
+		for _, l := range w.s4.GetLeases(LeasesAll) {
+			act = append(act, enc.ip(c10FromAddr(l.IP)))
+		}
+		for _, ip := range probeIPs {
+			if m := w.s4.FindMACbyIP(c10Addr(ip)); m != nil {
+				mbi = append(mbi, enc.ip(ip), c10FromMAC(m))
+			}
+		}
+		obsStr := c10Flat(tbl) + " " + hbi + " " + ibh + " " + c10Flat(act) + " " + c10Flat(mbi)
 		var busyEnc []string
 		for _, ip := range busyIPs {
 			busyEnc = append(busyEnc, enc.ip(ip))
